@@ -26,10 +26,11 @@ ASSUMPTIONS = ['R concatenates per-subset bit strings, each produced from fresh 
                'R only supplies bytes']
 BUDGET = {'quick': 45, 'thorough': 600}
 QUOTA = {'quick': 260, 'thorough': 4500}
-REQUIRED = {'quick': {'evaluations': 1500, 'open_operator_cases': 200, 'bitmap_cases': 150,
-                      'permutations_checked': 2000, 'differing_length_cases': 300, 'compiled_joint_decodes': 100},
-            'thorough': {'evaluations': 30000, 'open_operator_cases': 3000, 'bitmap_cases': 3000,
-                         'permutations_checked': 50000, 'differing_length_cases': 5000}}
+REQUIRED = {'quick': {'evaluations': 960, 'open_operator_cases': 200, 'bitmap_cases': 150, 'permutations_checked': 2000,
+                      'differing_length_cases': 300, 'compiled_joint_decodes': 100},
+            'thorough': {'evaluations': 15000, 'open_operator_cases': 3000, 'bitmap_cases': 3000,
+                      'permutations_checked': 50000, 'differing_length_cases': 5000}}
+
 
 OPEN_SHAPES = [
     ('open-201', [12001, 201130, 12001, 4024]),
